@@ -475,6 +475,8 @@ def run_shard(ctx):
             ctx.count('programs')
         exact_tolerance(ctx, rng, workdir)
         huge_guesses(ctx, rng, workdir)
+        if ctx.shard % 4 == 0:
+            blank_period_with_offset(ctx, rng, workdir)
         default_options(ctx, rng, workdir)
         # hand-written corner programs
         V, N, B, E, P, C = gen.Var, gen.Num, gen.Bin, gen.Eq, gen.Program, gen.Call
@@ -560,6 +562,27 @@ def huge_guesses(ctx, rng, workdir):
             ctx.evaluation((script, k, entry, offset), nontrivial=True)
             ctx.count('huge_finite_starting_guesses')
             one_program(ctx, prog, rng, workdir, f'huge{ctx.shard}', has_literals=False, fixed=fixed)
+
+
+def blank_period_with_offset(ctx, rng, workdir):
+    """The everyday use of `offset`: the period to solve is still blank (NaN, as a fresh model may be), its starting values are
+    taken from a neighbouring, finite period - after which every value is finite and stays finite, so the period is solved by
+    either back-end whatever the error policy; without an offset the same data are rejected by both."""
+    V, B, E, P = gen.Var, gen.Bin, gen.Eq, gen.Program
+    prog = P([E(V('Y'), B('+', B('*', V('d', 'param'), V('Y')), V('X'))), E(V('Z'), B('*', V('Y'), V('d', 'param')))])
+    script = gen.render_program(prog)
+    nan = float('nan')
+    for k, (t, offset) in enumerate(((1, -1), (1, 1), (-2, -1), (-2, 1), (1, 0), (2, -2), (0, 2))):
+        for errors in ('raise', 'skip', 'ignore', 'replace'):
+            y = [1.0, 2.0, 3.0]
+            y[t] = nan
+            z = [0.5, 1.5, 2.5]
+            z[t] = nan if k % 2 else z[t]
+            fixed = {'exact': True, 'data': {'Y': y, 'Z': z, 'X': [1.0, 2.0, 4.0], 'd': [0.5] * 3},
+                     'options': dict(entry='solve_t', t=t, min_iter=0, max_iter=60, tol=1e-9, failures='ignore', errors=errors, offset=offset)}
+            ctx.evaluation((script, 'blank', k, errors), nontrivial=True)
+            ctx.count('blank_periods_seeded_by_offset')
+            one_program(ctx, prog, rng, workdir, f'blank{ctx.shard}', has_literals=False, fixed=fixed)
 
 
 def replay(ctx, case):
